@@ -146,12 +146,15 @@ def rr_history(P, rng, random_start):
     lines, outs, windows = [], [], []
     members = []
     errors = [0]
+    stale_mut = rr_history.stale_mut = [0]
     try:
         ps = gen_parts(rng, allow_empty=(rng.random() < 0.05))
         sr.next = rng.randrange(0, 16)
         start = str(sr.next % max(len(ps), 1)) if random_start else "-"
+        ctor_obj = list(ps)
+        stale = [ctor_obj]  # list objects handed to the partitioner EARLIER; their owner may change them later
         try:
-            p = P.RoundRobinPartitioner("t", list(ps))
+            p = P.RoundRobinPartitioner("t", ctor_obj)
             lines.append("rr-new %s %s" % (ints(ps), start)); outs.append(["ok"])
         except ValueError:
             lines.append("rr-new %s %s" % (ints(ps), start)); outs.append(["error"])
@@ -161,10 +164,26 @@ def rr_history(P, rng, random_start):
         cur, run = list(ps), []
         for _ in range(rng.randrange(1, 7)):
             r = rng.random()
-            if r < 0.4:
+            if r < 0.32:
+                stale.append(cur)
                 cur = gen_parts(rng, allow_empty=(rng.random() < 0.03))
                 run = []
-            elif r < 0.7 and cur:
+            elif r < 0.5:
+                # the caller hands an EQUAL list in a new object from now on and its owner changes an object
+                # handed earlier (appends / removes / prepends an id): the list the partitioner is GIVEN is
+                # unchanged, so the cycle goes on (selections depend only on the lists supplied)
+                stale.append(cur)
+                cur = list(cur)
+                for old in rng.sample(stale, rng.randrange(1, len(stale) + 1)):
+                    op = rng.randrange(3)
+                    if op == 0:
+                        old.append((max(old) if old else 0) + rng.randrange(1, 4))
+                    elif op == 1 and old:
+                        old.pop(rng.randrange(len(old)))
+                    else:
+                        old.insert(0, (min(old) if old else 0) - rng.randrange(1, 4))
+                stale_mut[0] += 1
+            elif r < 0.75 and cur:
                 op = rng.randrange(3)
                 if op == 0:
                     cur.append(max(cur) + rng.randrange(1, 4))
@@ -216,6 +235,7 @@ def rr_cases(ctx, res, n):
             res.evaluations += 1
             res.count("rr_random_start=%s" % rs); res.count("rr_calls", len(lines) - 1); res.count("rr_windows", len(windows))
             res.count("rr_calls_raising", sum(1 for o in outs if o == ["error"]))
+            res.count("rr_owner_changes_a_list_object_handed_earlier", rr_history.stale_mut[0])
             res.count("rr_calls_after_a_raise", sum(1 for k, o in enumerate(outs) if ["error"] in outs[:k]))
             if len(lines) > 3:
                 res.nontrivial(lines)
@@ -249,6 +269,7 @@ def producer_cases(ctx, res, n):
     """Real Producer._next_partition (one partitioner per topic, current list passed in) vs model."""
     import afkak.partitioner as P
     from afkak.producer import Producer
+    from twisted.internet import defer
     from twisted.internet.task import Clock
 
     rng = ctx.rng
@@ -266,22 +287,41 @@ def producer_cases(ctx, res, n):
             lists = {t: gen_parts(rng) for t in topics}
             lines, outs, per_topic = ["prod-reset"], [["ok"]], {t: [] for t in topics}
             windows = []
+            keypool = [b"dev-%d" % k for k in range(rng.randrange(1, 4))]
+            seen_keys = {t: set() for t in topics}
+            nerr = 0
             for _ in range(rng.randrange(2, 30)):
                 t = rng.choice(topics)
                 if rng.random() < 0.12:
-                    lists[t] = gen_parts(rng)
+                    # (rarely an EMPTY list: the call raises, the producer object lives on and so does the history)
+                    lists[t] = gen_parts(rng, allow_empty=(rng.random() < 0.25))
                     per_topic[t] = []
                 cur = lists[t]
                 client.topic_partitions[t] = list(cur)
                 sr.next = rng.randrange(0, 16)
                 start = str(sr.next % max(len(cur), 1)) if rs else "-"
                 lines.append("prod-next %s %s %s" % (t, ints(cur), start))
-                d = prod._next_partition(t, None)
+                # the round-robin partitioner is handed keys and ignores them: unkeyed calls, calls with
+                # fresh keys and calls whose key REPEATS all consume exactly one selection
+                key = None if rng.random() < 0.4 else rng.choice(keypool) if rng.random() < 0.7 else b"k%d" % rng.randrange(1 << 20)
+                res.count("producer_call_key=" + ("none" if key is None else "repeated" if key in seen_keys[t] else "first-use"))
+                seen_keys[t].add(key)
+                # whatever _next_partition returns (a Deferred on the unchanged tree) is an observation
+                d = defer.maybeDeferred(prod._next_partition, t, key)
                 r = []
                 d.addCallbacks(r.append, lambda f: r.append(f))
-                if not r or not isinstance(r[0], int):
+                if not r or not isinstance(r[0], int) or isinstance(r[0], bool):
+                    # the call raised: the Producer (and the partitioner it stored, if any) survives - keep going, the
+                    # model does the same (nextPartitionRRAfterError)
                     outs.append(["error"])
-                    break
+                    per_topic[t] = []
+                    nerr += 1
+                    res.count("producer_calls_raising")
+                    if nerr > 3:
+                        break
+                    continue
+                if nerr:
+                    res.count("producer_calls_after_a_raise")
                 outs.append(["int %d" % r[0]])
                 per_topic[t].append(r[0])
                 nn = len(cur)
@@ -315,7 +355,8 @@ def producer_cases(ctx, res, n):
 
 class FlowClient(object):
     """Fake client for driving the real Producer through sends, broker errors and retries.
-    Only the interface Producer uses; produce Deferreds are completed by the scenario."""
+    Only the interface Producer uses; produce Deferreds (and, for a topic whose metadata the client
+    does not have yet, the metadata loads) are completed by the scenario."""
 
     def __init__(self, reactor):
         self.reactor = reactor
@@ -324,14 +365,22 @@ class FlowClient(object):
         self.pending = []  # (payloads, deferred)
         self.resets = 0
         self.on_send = None
+        self.meta_err = {}  # topic -> error code while the client has no good metadata for it
+        self.meta_pending = []  # (topics, deferred): metadata loads the producer is waiting for
+        self.loads = 0
 
     def metadata_error_for_topic(self, topic):
-        return 0
+        return self.meta_err.get(topic, 0)
 
     def load_metadata_for_topics(self, *topics):
         from twisted.internet import defer
 
-        return defer.succeed(None)
+        self.loads += 1
+        if not any(self.meta_err.get(t) for t in topics):
+            return defer.succeed(None)
+        d = defer.Deferred()
+        self.meta_pending.append((topics, d))
+        return d
 
     def reset_topic_metadata(self, *topics):
         self.resets += 1
@@ -346,31 +395,50 @@ class FlowClient(object):
         return d
 
 
-def producer_flow_cases(ctx, res, n):
-    """The real Producer (round robin) through sends, per-partition broker errors, retries and
-    metadata resets: the partition carried by each send must follow the per-topic cycle, i.e. be
-    what `nextPartitionRR` yields for the sends in order - errors and retries select nothing."""
+def producer_flow_cases(ctx, res, n, seeds=None):
+    """The real Producer (stock round-robin / hashed partitioner) through sends - unbatched and BATCHED,
+    unkeyed and keyed with keys that repeat within a batch -, topics whose metadata arrives only after
+    the batch was dispatched, per-partition broker errors, retries and metadata resets.  Judged on the
+    partition NAMED BY THE PRODUCE PAYLOAD that carried each send's message:
+      round robin: it is what `nextPartitionRR` yields for the sends of the topic in order (errors and
+                   retries select nothing, a key selects like no key) and every window is fair;
+      hashed:      it is the Java client's choice for THAT send's key (hashOk)."""
     import afkak.partitioner as P
     from afkak.common import ProduceResponse
     from afkak.producer import Producer
     from twisted.internet.task import Clock
 
-    rng = ctx.rng
+    import random
+
     P.RoundRobinPartitioner.set_random_start(False)
     batch = []
     for i in range(n):
+        # every history has a seed of its own: a failing one is re-run from it (replay)
+        fseed = seeds[i] if seeds is not None else ctx.rng.randrange(1 << 30)
+        rng = random.Random(fseed)
         clock = Clock()
         client = FlowClient(clock)
-        prod = Producer(client, partitioner_class=P.RoundRobinPartitioner, max_req_attempts=50)
+        hashed = rng.random() < 0.35
+        nb = rng.choice([None, None, 2, 3, 4, 6])
+        kw = dict(batch_send=True, batch_every_n=nb, batch_every_b=0, batch_every_t=5) if nb else {}
+        prod = Producer(client, partitioner_class=P.HashedPartitioner if hashed else P.RoundRobinPartitioner, max_req_attempts=50, **kw)
         topics = ["t%d" % k for k in range(rng.randrange(1, 3))]
+        lists = {t: sorted(rng.sample(range(0, 9), rng.randrange(2, 6))) for t in topics}
+        cold = rng.random() < 0.35
+        fail_left = {}
         for t in topics:
-            client.topic_partitions[t] = sorted(rng.sample(range(0, 9), rng.randrange(2, 5)))
-        sends = []  # (topic, list at send time is read at dispatch) in send order
+            if cold:
+                client.meta_err[t] = 3
+                fail_left[t] = rng.choice([0, 0, 1, 2])
+            else:
+                client.topic_partitions[t] = list(lists[t])
+        keypool = [bytes(rng.randrange(256) for _ in range(rng.choice([1, 3, 4, 6, 9]))) for _ in range(rng.randrange(1, 4))]
+        sends = []  # (topic, key) in send order
         chosen = {}  # send index -> partition
         dispatched_lists = {}
         sid = 0
 
-        def note_payloads(payloads):
+        def note_payloads(payloads, client=client, chosen=chosen, dispatched_lists=dispatched_lists):
             for pl in payloads:
                 for m in pl.messages:
                     k = int(m.value[1:])
@@ -378,13 +446,38 @@ def producer_flow_cases(ctx, res, n):
                         chosen[k] = pl.partition
                         dispatched_lists[k] = list(client.topic_partitions[pl.topic])
 
+        def answer_metadata(client=client, fail_left=fail_left, lists=lists):
+            # every load the producer waits for is answered at once, in order, one outcome per topic
+            waiting, client.meta_pending = client.meta_pending, []
+            outcome = {}
+            for tps, _d in waiting:
+                for t in tps:
+                    if t not in outcome:
+                        outcome[t] = fail_left.get(t, 0) <= 0
+                        if not outcome[t]:
+                            fail_left[t] -= 1
+            for t, ok in outcome.items():
+                if ok:
+                    client.topic_partitions[t] = list(lists[t])
+                    client.meta_err[t] = 0
+            for _tps, d in waiting:
+                d.callback(None)
+
         client.on_send = note_payloads
         for _ in range(rng.randrange(4, 26)):
             r = rng.random()
-            if r < 0.55 or not client.pending:
+            if client.meta_pending and r < 0.3:
+                answer_metadata()
+                res.count("flow_metadata_arrives_after_dispatch")
+                clock.advance(60)
+            elif r < 0.6 or not client.pending:
                 t = rng.choice(topics)
-                sends.append(t)
-                d = prod.send_messages(t, msgs=[b"m%d" % sid])
+                if hashed:
+                    key = rng.choice(keypool) if rng.random() < 0.6 else bytes(rng.randrange(256) for _ in range(rng.randrange(0, 12)))
+                else:
+                    key = None if rng.random() < 0.4 else rng.choice(keypool) if rng.random() < 0.75 else b"u%d" % sid
+                sends.append((t, key))
+                d = prod.send_messages(t, key=key, msgs=[b"m%d" % sid])
                 d.addErrback(lambda f: None)
                 sid += 1
             else:
@@ -394,44 +487,145 @@ def producer_flow_cases(ctx, res, n):
                 if code:
                     res.count("flow_error_%d" % code)
                     clock.advance(60)  # retry timer fires: the failed payloads are re-sent
-        # drain
+        # drain: answer everything, let the batch timer flush what waits
         for _ in range(200):
-            if not client.pending:
+            if client.meta_pending:
+                answer_metadata()
+            elif client.pending:
+                payloads, d = client.pending.pop(0)
+                d.callback([ProduceResponse(pl.topic, pl.partition, 0, 10) for pl in payloads])
+            elif not getattr(prod, "_batch_reqs", None) and not getattr(prod, "_batch_send_d", None):
                 break
-            payloads, d = client.pending.pop(0)
-            d.callback([ProduceResponse(pl.topic, pl.partition, 0, 10) for pl in payloads])
             clock.advance(60)
-        lines, outs, per_topic, windows = ["prod-reset"], [["ok"]], {t: [] for t in topics}, []
-        for k, t in enumerate(sends):
+        lines, outs, per_topic, windows, hmon = ["prod-reset"], [["ok"]], {t: [] for t in topics}, [], []
+        in_batch_repeat = 0
+        for k, (t, key) in enumerate(sends):
             if k not in chosen:
                 break
             ps = dispatched_lists[k]
+            if hashed:
+                lines.append("hashed %s %s" % (hx(key), ints(ps)))
+                outs.append(["int %d" % chosen[k]])
+                hmon.append((key, ps, chosen[k]))
+                continue
             lines.append("prod-next %s %s -" % (t, ints(ps)))
             outs.append(["int %d" % chosen[k]])
             per_topic[t].append(chosen[k])
             nn = len(ps)
             if len(per_topic[t]) >= nn:
                 windows.append((ps, per_topic[t][-nn:]))
-        mon = ["mon-rr %s %s" % (ints(ps), ints(w)) for ps, w in windows]
-        batch.append((lines, outs, windows, mon))
+        if nb:
+            for b0 in range(0, len(sends), nb):
+                ks = [x for x in sends[b0:b0 + nb] if x[1] is not None]
+                in_batch_repeat += len(ks) - len(set(ks))
+        mon = ["mon-rr %s %s" % (ints(ps), ints(w)) for ps, w in windows] + ["mon-hash %s %s %d" % (hx(key), ints(ps), p) for key, ps, p in hmon]
+        batch.append((lines, outs, windows, mon, hmon, fseed))
         res.evaluations += 1
         res.count("flow_histories"); res.count("flow_sends", len(sends)); res.count("flow_resets", client.resets)
-        if client.resets and len(sends) > 3:
+        res.count("flow_partitioner=" + ("hashed" if hashed else "rr")); res.count("flow_batch_every_n=%s" % nb)
+        res.count("flow_cold_start=%s" % cold); res.count("flow_keyed_sends", sum(1 for _t, key in sends if key is not None))
+        res.count("flow_same_key_again_within_a_batch", in_batch_repeat)
+        if (client.resets or nb or cold) and len(sends) > 3:
             res.nontrivial(lines + [client.resets])
-        res.sample({"op": "producer-flow", "sends": sends[:10], "chosen": [chosen.get(k) for k in range(min(10, len(sends)))], "metadata_resets": client.resets}, limit=9)
+        res.sample({"op": "producer-flow", "partitioner": "hashed" if hashed else "rr", "batch_every_n": nb, "cold": cold,
+                    "sends": [(t, None if key is None else key.hex()) for t, key in sends[:10]],
+                    "chosen": [chosen.get(k) for k in range(min(10, len(sends)))], "metadata_resets": client.resets}, limit=9)
     got = ctx.model("partitioner", [l for b in batch for l in b[0] + b[3]])
     pos = 0
-    for lines, outs, windows, mon in batch:
+    for lines, outs, windows, mon, hmon, fseed in batch:
         g = got[pos:pos + len(lines)]
         gm = got[pos + len(lines):pos + len(lines) + len(mon)]
         pos += len(lines) + len(mon)
-        if g != outs:
-            j = next(k for k in range(len(lines)) if g[k] != outs[k])
-            res.disagreements.append({"component": "partitioner/producer-flow", "scenario": lines[: j + 1], "impl": outs[j], "model": g[j]})
         for (ps, w), x in zip(windows, gm):
             if x != ["ok"]:
-                res.monitor_failures.append({"what": "per-topic round-robin window is not fair across broker errors / retries / metadata resets (list unchanged)", "scenario": {"partitions": ps, "window": w, "history": lines}, "tags": ["rr-unfair-producer-flow"]})
+                res.monitor_failures.append({"what": "per-topic round-robin window is not fair across batches / keyed sends / broker errors / retries / metadata resets (list unchanged)", "scenario": {"flow_seed": fseed, "partitions": ps, "window": w, "history": lines}, "tags": ["rr-unfair-producer-flow"]})
+        for (key, ps, p), x in zip(hmon, gm[len(windows):]):
+            if x != ["ok"]:
+                res.monitor_failures.append({"what": "a keyed message sent through the Producer (hashed partitioner) was carried to another partition than the Java client's choice for its key",
+                                             "scenario": {"flow_seed": fseed, "key_hex": key.hex(), "partitions": ps, "impl_result": p, "history": lines}, "tags": ["hash-not-java-producer-flow"]})
+        if g != outs:
+            j = next(k for k in range(len(lines)) if g[k] != outs[k])
+            res.disagreements.append({"component": "partitioner/producer-flow", "flow_seed": fseed, "scenario": lines[: j + 1], "impl": outs[j], "model": g[j]})
         res.traces_validated += 1
+
+
+def rr_script(P, script):
+    """A stored round-robin history (corpus key "c18_rr"): {"new": [ids], "ops": [{"hand": [ids]} - hand a NEW list object
+    with this content and select once | {"pick": n} - select n more times with the object handed last |
+    {"mutate": k, "op": "append"|"pop"|"insert0", "value": v} - the owner of the k-th object handed so far (0 = the
+    constructor's) changes it in place]}.  -> (model lines, impl outputs, windows, members) like rr_history."""
+    P.RoundRobinPartitioner.set_random_start(False)
+    objs = [list(script["new"])]
+    lines, outs, windows, members, run = ["rr-new %s -" % ints(objs[0])], [["ok"]], [], [], []
+    p = P.RoundRobinPartitioner("t", objs[0])
+    cur = objs[0]
+    for op in script["ops"]:
+        if "mutate" in op:
+            o = objs[op["mutate"]]
+            if op["op"] == "append":
+                o.append(op["value"])
+            elif op["op"] == "pop":
+                o.pop(op.get("value", -1))
+            else:
+                o.insert(0, op["value"])
+            if o is cur:
+                run = []
+            continue
+        n = 1
+        if "hand" in op:
+            if list(op["hand"]) != list(cur):
+                run = []
+            cur = list(op["hand"])
+            objs.append(cur)
+        else:
+            n = op["pick"]
+        for _ in range(n):
+            lines.append("rr-pick %s -" % ints(cur))
+            try:
+                x = p.partition(None, cur)
+            except (StopIteration, ValueError):
+                outs.append(["error"])
+                run = []
+                continue
+            outs.append(["int %d" % x])
+            run.append(x)
+            members.append((list(cur), x))
+            nn = len(cur)
+            if nn and cur == sorted(cur) and len(run) >= nn:
+                windows.append((list(cur), run[-nn:]))
+    return lines, outs, windows, members
+
+
+def rr_corpus_cases(ctx, res):
+    """stored round-robin histories (corpus/partitioner/*.json, key "c18_rr"): model comparison + windowFair + member"""
+    import json
+    import os
+
+    import afkak.partitioner as P
+    from harness.core import VERIF
+
+    d = os.path.join(VERIF, "corpus", "partitioner")
+    for fn in sorted(os.listdir(d)) if os.path.isdir(d) else []:
+        if not fn.endswith(".json"):
+            continue
+        for script in json.load(open(os.path.join(d, fn))).get("c18_rr", []):
+            lines, outs, windows, members = rr_script(P, script)
+            mon = ["mon-rr %s %s" % (ints(ps), ints(w)) for ps, w in windows]
+            mon2 = ["mon-member %s %d" % (ints(ps), x) for ps, x in members]
+            got = ctx.model("partitioner", lines + mon + mon2)
+            res.evaluations += 1
+            res.traces_validated += 1
+            res.count("rr:corpus-histories")
+            res.nontrivial(["rr-corpus", script])
+            if got[: len(lines)] != outs:
+                j = next(k for k in range(len(lines)) if got[k] != outs[k])
+                res.disagreements.append({"component": "partitioner", "scenario": lines[: j + 1], "impl": outs[j], "model": got[j], "script": script})
+            for (ps, w), g in zip(windows, got[len(lines):]):
+                if g != ["ok"]:
+                    res.monitor_failures.append({"what": "round-robin window is not fair", "scenario": {"rr_script": script, "partitions": ps, "window": w}, "tags": ["rr-unfair"]})
+            for (ps, x), g in zip(members, got[len(lines) + len(mon):]):
+                if g != ["ok"]:
+                    res.monitor_failures.append({"what": "round-robin selection is not a member of the supplied list", "scenario": {"rr_script": script, "partitions": ps, "selected": x}, "tags": ["rr-not-member"]})
 
 
 def corpus_cases(ctx, res):
@@ -461,6 +655,7 @@ def corpus_cases(ctx, res):
 
 def run(ctx, res):
     from harness.lib import xl_c18
+    from harness.lib.xl5_guard import guarded
 
     res.rule = ("hashed: random keys (every length 0..67, long, high bytes in every tail position, text vs UTF-8) x partition lists; "
                 "non-trivial = key of >= 4 bytes (exercises the chunk loop). round-robin: random histories of selections with list "
@@ -468,25 +663,30 @@ def run(ctx, res):
                 "Producer over the real KafkaClient over the simulated cluster, metadata listing partitions in arbitrary order / partly "
                 "leaderless / growing / re-ordered, broker errors, leader moves, restarts, lost answers; non-trivial = a run in which a "
                 "monitor was evaluated on a message that reached a broker. distinct = by content hash.")
-    corpus_cases(ctx, res)
-    hashed_cases(ctx, res, ctx.scale(1500, 40000))
-    rr_cases(ctx, res, ctx.scale(400, 6000))
-    producer_cases(ctx, res, ctx.scale(300, 5000))
-    producer_flow_cases(ctx, res, ctx.scale(300, 5000))
-    xl_c18.stage(ctx, res, ctx.scale(2000, 40000))
+    # a stage that trips over an implementation which no longer offers what it drives is a broken
+    # correspondence (exit 1), not a crash of the check; the other stages still run
+    guarded(res, "partitioner/corpus", corpus_cases, ctx, res)
+    guarded(res, "partitioner/rr-corpus", rr_corpus_cases, ctx, res)
+    guarded(res, "partitioner/hashed", hashed_cases, ctx, res, ctx.scale(1500, 40000))
+    guarded(res, "partitioner/rr", rr_cases, ctx, res, ctx.scale(400, 6000))
+    guarded(res, "partitioner/producer", producer_cases, ctx, res, ctx.scale(300, 5000))
+    guarded(res, "partitioner/producer-flow", producer_flow_cases, ctx, res, ctx.scale(400, 6000))
+    guarded(res, "partitioner/xl", xl_c18.stage, ctx, res, ctx.scale(2000, 40000))
 
 
 def search(ctx, res, broken):
     """A proof or the correspondence broke: look for an input on which the property itself fails."""
+    from harness.lib.xl5_guard import guarded
+
     r2 = Result()
-    hashed_cases(ctx, r2, ctx.scale(4000, 60000))
-    rr_cases(ctx, r2, ctx.scale(1000, 10000))
-    producer_cases(ctx, r2, ctx.scale(1000, 10000))
-    producer_flow_cases(ctx, r2, ctx.scale(1000, 10000))
+    guarded(r2, "partitioner/hashed", hashed_cases, ctx, r2, ctx.scale(4000, 60000))
+    guarded(r2, "partitioner/rr", rr_cases, ctx, r2, ctx.scale(1000, 10000))
+    guarded(r2, "partitioner/producer", producer_cases, ctx, r2, ctx.scale(1000, 10000))
+    guarded(r2, "partitioner/producer-flow", producer_flow_cases, ctx, r2, ctx.scale(1000, 10000))
     if not r2.monitor_failures:
         from harness.lib import xl_c18
 
-        xl_c18.stage(ctx, r2, ctx.scale(3000, 40000))
+        guarded(r2, "partitioner/xl", xl_c18.stage, ctx, r2, ctx.scale(3000, 40000))
     return r2.monitor_failures[:3]
 
 
@@ -505,6 +705,34 @@ def replay(ctx, data):
             print("scenario passes on the current tree")
         return rc
     print("replay:", sc)
+    if isinstance(sc, dict) and "rr_script" in sc:
+        lines, outs, windows, members = rr_script(P, sc["rr_script"])
+        got = ctx.model("partitioner", lines + ["mon-rr %s %s" % (ints(ps), ints(w)) for ps, w in windows] + ["mon-member %s %d" % (ints(ps), x) for ps, x in members])
+        bad = False
+        for l, o, g in zip(lines, outs, got):
+            print("  %-40s impl %s model %s%s" % (l, o, g, "" if o == g else "   <-- DIFFERENT"))
+        for (ps, w), g in zip(windows, got[len(lines):]):
+            if g != ["ok"]:
+                bad = True
+                print("  FAIL: window %r of list %r is not fair" % (w, ps))
+        for (ps, x), g in zip(members, got[len(lines) + len(windows):]):
+            if g != ["ok"]:
+                bad = True
+                print("  FAIL: selected %r is not a member of the supplied list %r" % (x, ps))
+        print("VIOLATION property=C18 replay=(this file)" if bad else "scenario passes on the current tree")
+        return 1 if bad else 0
+    if isinstance(sc, dict) and "flow_seed" in sc:
+        r = Result()
+        producer_flow_cases(ctx, r, 1, seeds=[sc["flow_seed"]])
+        for mf in r.monitor_failures:
+            print("  FAIL:", mf["what"], {k: v for k, v in mf["scenario"].items() if k != "history"})
+        for d in r.disagreements:
+            print("  model and implementation disagree:", d)
+        if r.monitor_failures:
+            print("VIOLATION property=C18 replay=(this file)")
+            return 1
+        print("scenario passes on the current tree")
+        return 0
     if "key_hex" in sc:
         kb = bytes.fromhex(sc["key_hex"])
         with warnings.catch_warnings():
